@@ -239,7 +239,10 @@ fn c02_from_float(ctx: &mut Ctx) {
 
 /// valid operand with high word 0 or in [2^emin, 2^emax]
 fn operand(ctx: &mut Ctx, emin: i64, emax: i64) -> Dd {
-    dd_exp(ctx, emin, emax - 1, true)
+    if let Some(c) = maybe_constant(ctx, 40, false) {
+        return c;
+    }
+    dd_closed(ctx, emin, emax, true)
 }
 fn operand_pair(ctx: &mut Ctx, emin: i64, emax: i64) -> (Dd, Dd) {
     let a = operand(ctx, emin, emax);
@@ -556,6 +559,17 @@ fn c04_op(ctx: &mut Ctx, form: Form) {
                 }
             });
             ctx.set_nontrivial(a.lo != 0.0 && b.lo != 0.0);
+            if same_dd(a, b) {
+                // squaring written with two references to the SAME object must give the same words
+                ctx.label("same-object-square");
+                let sq = run_tf(ctx, "&a * &a", || &ta * &ta);
+                if let Some(sq) = sq {
+                    // C04 claims the bound for this spelling too (bit-identity of spellings is C10's business)
+                    if check_valid(ctx, "&a * &a", sq) && !exact.is_zero() {
+                        within_rel(ctx, "&a * &a (one object)", sq, &exact, &ku2(5));
+                    }
+                }
+            }
         }
         _ => {
             let a = operand(ctx, -450, 450);
@@ -673,7 +687,10 @@ enum DForm {
 }
 
 fn nonzero_operand(ctx: &mut Ctx, emin: i64, emax: i64) -> Dd {
-    dd_exp(ctx, emin, emax - 1, false)
+    if let Some(c) = maybe_constant(ctx, 40, false) {
+        return c;
+    }
+    dd_closed(ctx, emin, emax, false)
 }
 
 fn c05_op(ctx: &mut Ctx, form: DForm) {
@@ -898,6 +915,17 @@ fn quotient(a: &Big, b: &Big) -> Quot {
 
 /// operands for % : b first, a placed relative to b
 fn rem_pair(ctx: &mut Ctx) -> (Dd, Dd) {
+    if ctx.chance(1, 16) {
+        // values at the boundaries of the integer types (+-2^7 .. +-2^64, +-1 off) over tiny divisors:
+        // where an integer fast path would overflow or lose bits
+        ctx.label("operands:integer-type-boundaries");
+        let k = [7, 8, 15, 16, 31, 32, 52, 53, 63, 64][ctx.below(10) as usize];
+        let v = Big::pow2(k).add(&Big::from_i64(ctx.range(-1, 1)));
+        let v = if ctx.flag() { v.neg() } else { v };
+        let a = crate::p_conv::dd_from_big(&v);
+        let bv = [1.0, 2.0, 3.0, 5.0][ctx.below(4) as usize] * if ctx.flag() { -1.0 } else { 1.0 };
+        return (a, Dd::new(bv, 0.0));
+    }
     if ctx.chance(1, 8) {
         // integer-valued operands beyond 2^53: a = m * 2^s (up to 2^89), b a small integer
         ctx.label("operands:large-integers");
